@@ -156,8 +156,8 @@ class Pseudo2NetCDF:
             # in-memory masked target: keep the mask instead of filling
             nvar[:] = pvar[...]
         elif isinstance(pvar[...], MaskedArray):
-            nvar[:] = pvar[...].filled(getattr(nvar, 'fill_value', getattr(
-                nvar, '_FillValue', getattr(pvar, 'missing_value', -9999))))
+            nvar[:] = pvar[...].filled(getattr(nvar, '_FillValue', getattr(
+                nvar, 'fill_value', getattr(pvar, 'missing_value', -9999))))
         else:
             nvar[:] = pvar[...]
 
